@@ -5,6 +5,7 @@ import PdshVerif.Pcp.Links
 import PdshVerif.Pcp.Statics
 import PdshVerif.Pcp.ClientStatics
 import PdshVerif.Pcp.DeepSession
+import PdshVerif.Pcp.Allocbuf
 import Driver.Util
 
 /-! line protocol of the `pcp` engine (C11, C12): the receiver model `sink`, the sender model `send`,
@@ -23,6 +24,7 @@ the command-line construction and the two specifications, driven by checks/c11.p
     norm   CWD STRING                    (lexical normal form of a path string)
     deep   P Y UMASK CNT RULE DIRCHMOD FSIZE CWD DEST REVERSE HOST SUBSEC SENTFIX NFS FSENTRY... SRCTOKENS...
                                          (Pcp/Deep.lean `classifyTop`, `dTopFs`, `dTopBad`)
+    cnt    ST_BLKSIZE                    (Pcp/Allocbuf.lean `allocSize`: bp->cnt for a file system block size)
     cstatics                             (Pcp/ClientStatics.lean: the same for pcp_client.c, the client threads of a forward copy)
     statics ERRFPSHARED                  (Pcp/Statics.lean: the static objects of pcp_server.c the model accounts for, the
                                          process-wide libc calls it does not cover, and those it does)
@@ -378,6 +380,10 @@ def handle (line : String) : String :=
   | ["statics", e] =>
     s!"defs={commaJoin ((serverStatics (flag e)).map (·.1))} forbidden={commaJoin processWideCalls} " ++
       s!"modelled={commaJoin modelledProcessWideCalls}"
+  | ["cnt", blk] =>
+    match blk.toNat? with
+    | some b => toString (allocSize b BUFSZ)
+    | none => "bad-op"
   | ["cstatics"] =>
     s!"defs={commaJoin clientStatics} forbidden={commaJoin clientProcessWideCalls} " ++
       s!"expandonly={commaJoin clientExpandOnlyCalls}"
